@@ -677,8 +677,13 @@ impl Gen {
             // savepoint call advances the one counter) when a persistent savepoint is taken while an older one exists
             self.burst_done = true;
             self.queue.push_back(json!({"e": "bw"}));
-            self.queue.push_back(json!({"e": "spp"}));
-            for _ in 0..rng.random_range(255..300) {
+            // the older savepoint gets an id with a large low byte, the newer one an id above 256 with a small low byte:
+            // their order as numbers and as little-endian byte strings differs
+            let first = rng.random_range(120..250);
+            for i in 0..rng.random_range(270..330) {
+                if i == first {
+                    self.queue.push_back(json!({"e": "spp"}));
+                }
                 let s = self.fresh("s");
                 self.queue.push_back(json!({"e": "spe", "s": s}));
                 self.queue.push_back(json!({"e": "spdrop", "s": s}));
